@@ -96,8 +96,31 @@ struct IC_ : state_machine_def<IC_> {
   template<class F,class Ev> void no_transition(Ev const&,F&,int){ g_log += "NT "; }
 };
 typedef BE<IC_> IC;
+// flags INSIDE behaviours: under the default policy (switch after the target's entry) the submachine being left is still the active state
+// while the transition's action and the target's entry run, so a flag carried by the submachine's active substate is still reported (C17:
+// "inside behaviours it reflects the configuration defined by the active-state-switch policy", looking into active submachines recursively)
+struct InnerFlag {}; struct quit {};
+static std::string g_flog;
+struct FS_ : state_machine_def<FS_> {
+  struct Work : state<> { typedef mpl::vector<InnerFlag> flag_list; };
+  typedef Work initial_state;
+  struct transition_table : mpl::vector<> {};
+  template<class F,class Ev> void no_transition(Ev const&,F&,int){}
+};
+typedef BE<FS_> FSub;
+struct FT_ : state_machine_def<FT_> {
+  struct AskA { template<class E,class F,class S,class T> void operator()(E const&,F& f,S&,T&){ g_flog += std::string("action:") + (f.template is_flag_active<InnerFlag>() ? "1" : "0") + " "; } };
+  struct Done : state<> { template<class E,class F> void on_entry(E const&,F& f){ g_flog += std::string("entry:") + (f.template is_flag_active<InnerFlag>() ? "1" : "0") + " "; } };
+  typedef FSub initial_state;
+  struct transition_table : mpl::vector< Row<FSub,quit,Done,AskA,none> > {};
+  template<class F,class Ev> void no_transition(Ev const&,F&,int){}
+};
+typedef BE<FT_> FTop;
 int main(int argc, char** argv) {
   if (argc > 1) g_only = argv[1];
+  { FTop m; m.start(); g_flog.clear(); const bool before = m.template is_flag_active<InnerFlag>();
+    m.process_event(quit()); const bool after = m.template is_flag_active<InnerFlag>();
+    report("flag-of-a-substate-while-its-submachine-is-being-left.default-policy", before && !after && g_flog == "action:1 entry:1 ", "C17,C19", "before=" + std::to_string(before) + " during=[" + g_flog + "] after=" + std::to_string(after)); }
   { IC m; m.start(); g_log.clear(); m.process_event(both()); const int b1 = cur(m,1); const std::string first = g_log;
     // (what happens after `resume` differs by design: back / back11 evaluate completion transitions after EVERY handled event, so B1 -> B2 fires
     //  then; backmp11 fires them only upon entry (version history: "Completion events fire too often", #166) - not compared here)
